@@ -186,3 +186,7 @@ def run(tier: str) -> int:
         key = {'fam': r['ctx']['fam'], 'clause': mm[1], 'rm': r['ctx']['rm'], 'k': r['ctx']['k']}
         rep.mismatch(key, r)
     return rep.finish()
+
+
+def replay(path: str) -> int:
+    return core.replay_saved('C17', 'StochasticTrace', path, rerun=globals().get('_rerun'))
